@@ -725,11 +725,13 @@ func scenarioIdle(seed int64, idle, frame time.Duration) *verdict {
 	silent, _ := w.offender(true, true)
 	chatty := w.s.dial("chatty", true)
 	w.all = append(w.all, chatty)
-	chatty.join(w.sidA)
+	talk := int(seed % 6) // every way of talking in turn
+	if talk < 4 {
+		chatty.join(w.sidA)
+	} // else: a connection that is in no session - it has no frames, what it sends still shows that it is there
 	// the talking client sends a request every quarter of the idle timeout, on its own clock (it does not wait for the
 	// answers: a slow machine must not turn it into a silent one)
 	stopTalking := make(chan struct{})
-	talk := w.r.Intn(4)
 	go func() {
 		t := time.NewTicker(idle / 4)
 		defer t.Stop()
@@ -747,8 +749,12 @@ func scenarioIdle(seed int64, idle, frame time.Duration) *verdict {
 					chatty.send(&hagallpb.EntityUpdatePose{Type: hagallpb.MsgType_MSG_TYPE_ENTITY_UPDATE_POSE, Timestamp: now(), EntityId: 1})
 				case 2:
 					chatty.send(&hagallpb.EntityUpdatePose{Type: hagallpb.MsgType_MSG_TYPE_ENTITY_UPDATE_POSE, Timestamp: now(), EntityId: 77, Pose: &hagallpb.Pose{Px: 1}})
-				default:
+				case 3:
 					chatty.send(&hagallpb.Request{Type: hagallpb.MsgType(4242), Timestamp: now()})
+				case 4:
+					chatty.send(&hagallpb.EntityUpdatePose{Type: hagallpb.MsgType_MSG_TYPE_ENTITY_UPDATE_POSE, Timestamp: now(), EntityId: 1, Pose: &hagallpb.Pose{Px: 1}})
+				default:
+					chatty.send(&hagallpb.EntityComponentUpdate{Type: hagallpb.MsgType_MSG_TYPE_ENTITY_COMPONENT_UPDATE, Timestamp: now(), EntityComponentTypeId: 1, EntityId: 1, Data: []byte{1}})
 				}
 			}
 		}
@@ -757,7 +763,7 @@ func scenarioIdle(seed int64, idle, frame time.Duration) *verdict {
 	talking := chatty.ping(patience)
 	close(stopTalking)
 	if !talking {
-		return w.finish(&verdict{"talking-client-disconnected", fmt.Sprintf("a client that sends a message (kind %d: 0 ping, 1 pose update without a pose, 2 pose update, 3 unknown type) every quarter of the idle timeout was disconnected", talk)}, 0, 3*time.Second+2*idle)
+		return w.finish(&verdict{"talking-client-disconnected", fmt.Sprintf("a client that sends a message (kind %d: 0 ping, 1 pose update without a pose, 2 pose update, 3 unknown type; without having joined: 4 pose update, 5 component update) every quarter of the idle timeout was disconnected", talk)}, 0, 3*time.Second+2*idle)
 	}
 	select {
 	case <-silent.closed:
